@@ -25,8 +25,8 @@ WALL_BUDGET = {"quick": 900, "thorough": 5400}
 SAMPLE_RATE = {"quick": 0.3, "thorough": 0.1}
 CHUNK = 32
 STUBS = ["asyncio.open_connection -> FakeNet (frozen after shutdown returns: activity is recorded as late)", "scripted reference console", "loop -> VLoop"]
-OUTSIDE = ["shutdown() racing a handshake answer: loop-turn offsets beyond 23 turns after the console received the request (the handshake step completes within that window)", "garbage collection of the dropped model objects", "a connect already in flight at shutdown may complete; it must then be closed at once, unwritten (interpretation of 'no further connection is attempted')", "shutdown() called concurrently with another shutdown()/init()"]
-ASSUMPTIONS = ["'no timer or task remains' is observed as: the virtual loop has no pending timer and no ready handle at the horizon"]
+OUTSIDE = ["an application send() still suspended in drain() when close() is called (the application's own task)", "shutdown() racing a handshake answer: loop-turn offsets beyond 23 turns after the console received the request (the handshake step completes within that window)", "garbage collection of the dropped model objects", "shutdown() called concurrently with another shutdown()/init()"]
+ASSUMPTIONS = ["'no timer or task remains' is observed eight loop turns after shutdown() returned (the done-callbacks of just-finished tasks are still queued at the very instant it returns) and again at the horizon: the virtual loop has no pending timer and no ready handle"]
 
 
 def bounds(tier):
@@ -220,6 +220,14 @@ def run(ctx, p):
             await rig.at.shutdown()
             done["at"] = rig.loop.time()
             rig.net.frozen = True          # from here on any network activity is a violation
+            # "no timer or task of the client remains scheduled": looked at a few loop turns after shutdown() returned (the
+            # callbacks of tasks that have just finished are still in the ready queue at the very instant it returns)
+            # (an init() call of the application that is still waiting for its 5 s limit is the application's, not a leftover)
+            while rig.init_returned_at is None and rig.loop.time() < 30:
+                await asyncio.sleep(0.25)
+            for _ in range(8):
+                await asyncio.sleep(0)
+            done["idle"] = (len(rig.loop.client_timers()), len(rig.loop.pending_ready()))
 
         if phase == "backoff":
             # initialised, then the link dies and the console refuses: shutdown falls into the reconnect back-off
@@ -310,11 +318,11 @@ def run(ctx, p):
         rig.run(ts + 700.0)
         ctx.observe("late", len(rig.net.late))
         ctx.check(rig.net.late == [], "nothing_after_shutdown", detail=dict(detail, late=[(k, str(t)) for k, t in rig.net.late][:4]))
-        # a connect that was already in flight when shutdown() was called may still complete, but must be closed at once
-        # without a byte written (no *further* attempt is made; every connection opened is closed)
-        for c in rig.net.inflight_opens:
-            ctx.check(c.client_closed and _b(c.closed_at == c.opened_at) and not c.writes, "nothing_after_shutdown",
-                      detail=dict(detail, why="in-flight connection kept open / written to after shutdown"))
+        ctx.check(done.get("idle") == (0, 0), "loop_idle", detail=dict(detail, why="a timer or task of the client was still scheduled right after shutdown() returned",
+                                                                       timers_ready=done.get("idle")))
+        # a connect that was in flight when shutdown() was called is abandoned with it: no connection comes into being afterwards
+        ctx.check(rig.net.inflight_opens == [], "nothing_after_shutdown",
+                  detail=dict(detail, why="a connection attempt that was in flight at shutdown() completed afterwards", opened=len(rig.net.inflight_opens)))
         ctx.check(rig.loop.idle(), "loop_idle", detail=dict(detail, timers=len(rig.loop.pending_timers()), ready=len(rig.loop.pending_ready())))
         ctx.check(all(c.client_closed for c in rig.net.conns), "all_transports_closed",
                   detail=dict(detail, open=[c.index for c in rig.net.conns if not c.client_closed]))
@@ -408,6 +416,9 @@ def _sock_close(ctx, p):
             await rig.sock.close()
             done["at"] = rig.loop.time()
             rig.net.frozen = True
+            for _ in range(8):
+                await asyncio.sleep(0)
+            done["idle"] = (len(rig.loop.client_timers()), len(rig.loop.pending_ready()))
 
         rig.loop.vt_call_at(ts, lambda: rig.spawn(do_close()))
         if sc == "write_suspended_lost":
@@ -423,9 +434,12 @@ def _sock_close(ctx, p):
         rig.loop.vt_run(ts + 100.0)
         ctx.observe("late", len(rig.net.late))
         ctx.check(rig.net.late == [], "nothing_after_shutdown", detail=dict(detail, late=[(k, str(t)) for k, t in rig.net.late][:4]))
-        for c in rig.net.inflight_opens:
-            ctx.check(c.client_closed and _b(c.closed_at == c.opened_at) and not c.writes, "nothing_after_shutdown",
-                      detail=dict(detail, why="in-flight connection kept open / written to after close"))
+        ctx.check(rig.net.inflight_opens == [], "nothing_after_shutdown",
+                  detail=dict(detail, why="a connection attempt that was in flight at close() completed afterwards", opened=len(rig.net.inflight_opens)))
+        if sc not in ("write_suspended", "write_suspended_lost"):
+            # (a send() of the *application* that is still waiting in drain() is the application's task, not the client's)
+            ctx.check(done.get("idle") == (0, 0), "loop_idle", detail=dict(detail, why="a timer or task of the client was still scheduled right after close() returned",
+                                                                           timers_ready=done.get("idle")))
         t_done = done.get("at", ts)
         late_conn = [t for t, connected in rig.conn_events if connected and _b(t > t_done)]
         ctx.check(late_conn == [], "nothing_after_shutdown", detail=dict(detail, why="connected notification after close()", at=[str(t) for t in late_conn]))
